@@ -8,43 +8,52 @@ dict with scrambled-int / "k10"<"k9" string / unsortable mixed keys,
 return_as="generator", "generator_unordered"} x n_jobs {1,2,3,16} (as argument and
 via set_n_parallel_jobs) x pbar {None,"x"} x job values {identifying (i,i*i),
 duplicate-valued} x N jobs x completion order.  Bound: N = 0..6 with EVERY
-completion order (874 per combination, tasks and results crossing a cloudpickle
-boundary as with loky); N in {7,8,16,17,64} (thorough: + 32,33,63) with every
-<= 2-deviation schedule + reversal / rotations / interleave (quick: N=64 with
-<= 1 deviation).  Oracle (reference = the job's own value function, written
-separately from the job): list -> a list with job i's value at position i; dict ->
-a dict with the input's key order, each key mapping to its own job's value;
-"generator" -> submission order; "generator_unordered" -> the multiset of values.
+completion order (874 per combination; tasks and results cross a cloudpickle boundary
+as with loky; N <= 3 also with every job in a fresh fork); N in {7,8,16,17} with every
+<= 2-deviation schedule + reversal / rotations / interleave, N=64 with every
+<= 1-deviation schedule + the named orders (thorough: also <= 2 deviations for
+N in {32,33,64} on a reduced set of combinations); see ``virtual_phases``.
+Oracle (reference values from a table, written separately from the job body): list ->
+a list with job i's value at position i; dict -> a dict with the input's key order,
+each key mapping to its own job's value; "generator" -> submission order;
+"generator_unordered" -> the multiset of values.
 
 ``traces_validated_against_impl`` counts ONLY the conformance replays (DESIGN 3.6):
 schedules forced on the REAL joblib/loky backend with engineered sleeps (job of rank
-r finishes at (r+1)*60 ms) whose measured completion order was the intended one and
-whose result was compared with the virtual run of the same schedule and with the
-oracle.  A free-running pass on real loky (n_jobs 2 and 16) is a smoke test of the
-pickling boundary.
+r finishes (r+1)*60 ms after a common start signal; n_jobs 2, 3, 16) whose measured
+completion order was the intended one and whose result was compared with the virtual
+run of the same schedule and with the oracle (13 in quick, 42 in thorough).  A
+free-running pass on real loky (n_jobs 2 and 16) is a smoke test of the pickling boundary.
 
-Mutation self-test (scratch copy /tmp/af-mut-c32 of /repo, VERIF_REPO=... ./check C32,
-copy removed afterwards; quick tier):
-  (a) list path: ``results.append(result)`` instead of ``results[i] = result``
-      (results initialised to []): CAUGHT, exit 1, family list/permuted-order/wrong-position;
-      every one of the 0-deviation (submission order) schedules PASSES it -- only schedules
-      with >= 1 deviation catch it (smallest: N=2, choices (1,) = order [1,0]), on the
-      virtual backend and in the forced real-loky replays alike.  The free-running pass on
-      real loky did not catch it either (workers happen to finish in order): that is why
-      completion orders have to be enumerated.
+Mutation self-test (2026-09-21; scratch copy /tmp/af-mut-c32 of /repo, only
+accelforge/util/parallel.py edited, ``VERIF_REPO=/tmp/af-mut-c32 ./check C32 --tier
+quick``, copy removed afterwards).  All mutants CAUGHT (exit 1):
+  (a) list path collects in completion order: ``results = []`` / ``results.append(result)``
+      instead of ``results[i] = result``.  87 878 virtual violations, family
+      list/permuted-order/wrong-position, smallest: N=2, choices (1,) = completion order
+      [1,0].  NOT caught by any 0-deviation schedule: all 1 120 submission-order
+      executions of the run pass -- only schedules with >= 1 deviation see it, which is why
+      completion orders are enumerated.  Also caught by the 5 forced-order list replays on
+      real loky; the free-running real pass caught it in 2 resp. 5 of its 60 runs in two
+      attempts (long lists on a loaded box: luck, not coverage).
   (b1) dict path ``return result`` (completion order) instead of re-keying in jobs order:
-      CAUGHT, family dict:*/permuted-order/key-order, smallest N=2 order [1,0]; passes all
-      0-deviation schedules.
-  (b2) dict path pairing keys with values by position
-      (``dict(zip(jobs, (v for _, v in <unordered results>)))``): CAUGHT, family
-      dict:*/permuted-order/wrong-key-value, smallest N=2 order [1,0]; passes all
-      0-deviation schedules.
-  (c) index tagging off by one (``enumerate(jobs, 1)``): CAUGHT by every schedule incl. the
-      0-deviation one (IndexError -> family list/default-order/exception, smallest N=2;
-      N=0 and the serial shortcuts are unaffected).
-  (d) worker-side store (``f`` writes ``results[i]`` inside the job and returns nothing):
-      CAUGHT only thanks to the cloudpickle boundary of the scheduler (family
-      list/default-order/wrong-position; the pickle=False phases pass it).
+      ~88 000 violations per key scheme, family dict:<scheme>/permuted-order/key-order,
+      smallest N=2 order [1,0]; passes every 0-deviation schedule.
+  (b2) dict path pairs keys with values by position
+      (``for k, (_, v) in zip(jobs, parallel(...unordered...))``): family
+      dict:<scheme>/permuted-order/wrong-key-value (~88 000 per scheme), smallest N=2 order
+      [1,0]; passes every 0-deviation schedule.
+  (c) index tagging off by one: ``enumerate(jobs, 1)`` -> IndexError, family
+      list/default-order/exception (154) and list/permuted-order/exception (88 094):
+      caught by EVERY schedule incl. the 0-deviation one, smallest N=2; variant
+      ``results[i - 1] = result`` -> list/default-order/wrong-position (142) and
+      list/permuted-order/wrong-position (88 082).  N=0 and the serial shortcuts are
+      unaffected in both.
+  (d) worker-side store (``f`` writes ``results[i]`` in the worker and returns None):
+      caught only where tasks cross the pickle boundary (pickled / isolated virtual phases:
+      118 default-order + 12 026 permuted-order wrong-position; forced and free real loky);
+      the pickle=False phases pass it -- that is what the cloudpickle flag of the scheduler
+      is for.
 """
 
 from __future__ import annotations
@@ -213,9 +222,11 @@ def has_menu(mode, n_jobs, n):
     return mode != "generator" and n_jobs != 1 and n >= 2
 
 
-def path_name(mode, n_jobs, n, choices):
+def path_name(mode, n_jobs, n, choices, backend="virtual"):
     if n_jobs == 1 or n == 1:
         return "serial-shortcut"
+    if backend == "real-free":
+        return "uncontrolled-order"
     return "permuted-order" if S.n_deviations(choices) else "default-order"
 
 
@@ -226,21 +237,28 @@ def make_result(phase, backend, mode, via, n_jobs, pbar, values, n, choices, out
     sites = [r for r in trace if not r.nested]
     delivered = list(sites[0].order) if sites else None
     applied = bool(sites) and sites[0].has_menu and delivered != sorted(delivered)
+    path = path_name(mode, n_jobs, n, choices, backend)
+    if backend == "real-free":
+        order = None  # whatever the OS made of it
+    else:
+        order = S.choices_to_order(choices, n) if has_menu(mode, n_jobs, n) else list(range(n))
     sample = {"phase": phase, "backend": backend, "mode": mode, "via": via, "n_jobs": n_jobs,
-              "pbar": pbar, "values": values, "N": n, "choices": list(choices),
-              "order": S.choices_to_order(choices, n) if has_menu(mode, n_jobs, n) else list(range(n)),
+              "pbar": pbar, "values": values, "N": n, "choices": list(choices), "order": order,
               "pickle": pickle, "exec_mode": exec_mode}
     if extra:
         sample.update(extra)
     viol = None
     if kind is not None:
+        how = ("free-running real backend, completion order not controlled" if order is None else
+               f"completion order {order} (feasible with >= {S.min_workers_for(order)} workers)")
         viol = {"observed": _jsonable_out(out), "expected": _jsonable_out(dict(exp) if mode.startswith("dict:") else exp),
-                "family": f"{mode}/{path_name(mode, n_jobs, n, choices)}/{kind}" + ("" if backend == "virtual" else f"@{backend}"),
-                "note": f"parallel() result violates the {mode} contract ({kind}); completion order {sample['order']}"
-                        f" needs >= {S.min_workers_for(sample['order'])} workers",
+                "family": f"{mode}/{path}/{kind}" + ("" if backend == "virtual" else f"@{backend}"),
+                "note": f"parallel() result violates the {mode} contract ({kind}); {how}",
                 "config": sample}
     if kind is not None:
         outcome = ("viol", mode, kind, repr(out)[:200])
+    elif mode == "generator_unordered" and backend == "real-free":
+        outcome = ("ok", mode, values, n, "uncontrolled order")
     elif mode == "generator_unordered":
         seen = out if n <= 8 else (out[:2] + out[-1:])
         outcome = ("ok", mode, values, n, repr(seen))
@@ -248,7 +266,7 @@ def make_result(phase, backend, mode, via, n_jobs, pbar, values, n, choices, out
         outcome = ("ok", mode, values, n)  # out == reference(mode, values, n)
     return Result(outcome=outcome, nontrivial=applied, validated=validated, violation=viol,
                   sample=sample, evaluations=evaluations,
-                  outcome_class=f"{phase}|{'ok' if kind is None else kind}|{path_name(mode, n_jobs, n, choices)}")
+                  outcome_class=f"{phase}|{'ok' if kind is None else kind}|{path}")
 
 
 # ----------------------------- choice trees -----------------------------
@@ -414,6 +432,11 @@ def _prepare_real_backend(n_jobs):
         _WARM.add(n_jobs)
 
 
+def _shutdown_real_backend():
+    S.shutdown_real_backend()
+    _WARM.clear()
+
+
 def run_conformance(mode, via, n_jobs, pbar, values, n, order, step=S.DEFAULT_STEP):
     _prepare_real_backend(n_jobs)
     choices = S.order_to_choices(order)
@@ -442,7 +465,7 @@ def conformance_body(cfg):
                       extra={"order": list(order), "step": r["step"], "attempts": r["attempts"],
                              "achieved": r["achieved"],
                              "completed": r["real_trace"][0]["completed"] if r["real_trace"] else None},
-                      evaluations=1 + r["attempts"])
+                      evaluations=2)  # one virtual + one real run count; retries are in the outcome class
     if res.violation is None:
         vk = oracle(mode, r["virtual"], reference(mode, values, n))
         if vk is not None:  # cannot happen if the virtual phases were silent
@@ -457,7 +480,9 @@ def conformance_body(cfg):
                                      "different value than the virtual scheduler: the scheduler model is wrong"}
     if not ok:
         res.nontrivial = False
-        res.outcome_class = "conformance-order-not-achieved"
+        res.outcome_class = f"conformance|order-not-achieved|{mode},n_jobs={n_jobs},N={n}"
+    else:
+        res.outcome_class += f"|real-attempts={r['attempts']}"
     return res
 
 
@@ -521,8 +546,11 @@ def run(ctx):
     # real joblib / loky: in this process, serially, after the last fork of the explorer
     # (seed=0: the order of these items only matters for the executor's size changes)
     items, n_battery, n_free = real_items(q)
-    st = ctx.explore("real-joblib-loky", real_tree(items), real_body, shard_depth=1, workers=1,
-                     seed=0, distinct_by_construction=True)
+    try:
+        st = ctx.explore("real-joblib-loky", real_tree(items), real_body, shard_depth=1, workers=1,
+                         seed=0, distinct_by_construction=True)
+    finally:
+        _shutdown_real_backend()  # before the scratch directory (the workers' cwd) is removed
     n_conf = st.validated
 
     ctx.extra_cov["conformance_replays_on_real_joblib"] = n_conf
@@ -575,6 +603,7 @@ def replay(ctx, rec):
         else:
             _prepare_real_backend(n_jobs)
             out = call_parallel(mode, "arg", n_jobs, pbar, values, n)
+        _shutdown_real_backend()
         shown = sorted(out, key=repr) if mode == "generator_unordered" and isinstance(out, list) else out
         obs = {"result": _jsonable_out(shown)}  # timing-dependent details are left out
     kind = oracle(mode, out, exp)
